@@ -221,12 +221,24 @@ class DocGen:
             elif k == 5:
                 parts.append(r.choice(["\n", "\r\n", "\t", " ", "]]", "]", ">"]))
             elif k == 6 and not self.small:
-                parts.append(r.choice(["<!--c-->", "<?pi d?>", "<!-- -- -->".replace("-- --", "- -")]))
+                parts.append(r.choice(["<!--c-->", "<?pi d?>", "<!-- - - -->"]))
             else:
                 parts.append("".join(r.choice("abcxyz019 .,") for _ in range(r.randint(1, 3 if self.small else 12))))
         if long:
             parts.append("".join(r.choice("abcdefgh \n") for _ in range(r.choice([1021, 1024, 1100, 2500, 4100]))))
-        return "".join(parts)
+        # "]]>" must not appear literally in character data (XML 1.0, 2.4): when adjacent pieces would form it,
+        # the '>' is written as a reference (the CDATA pieces themselves end with "]]>" legitimately)
+        out = ""
+        for p in parts:
+            if not p.startswith("<![CDATA[") and not p.startswith("<!--") and not p.startswith("<?"):
+                tail = out[-2:] if not out.endswith("]]>") else ""
+                joined = tail + p
+                while "]]>" in joined:
+                    i = joined.index("]]>") + 2 - len(tail)
+                    p = p[:i] + "&gt;" + p[i + 1:]
+                    joined = tail + p
+            out += p
+        return out
 
     def attval(self):
         r = self.rng
